@@ -519,6 +519,45 @@ pub fn run_replay<P: Prop>(case: &Value) -> anyhow::Result<(Vec<Violation>, Vec<
     Ok((obs.violations, obs.inconclusive))
 }
 
+thread_local! {
+    static IN_HISTORY: std::cell::Cell<bool> = const { std::cell::Cell::new(false) };
+}
+
+/// History round, for state that survives between calls (a cache keyed by the text but not by a
+/// mode flag, a scratch buffer that is not reset): every third case is executed as
+/// `check(flip(c))` with its verdicts thrown away, then `check(c)`, in the same process and thread,
+/// `flip` toggling a mode flag on the same inputs. (This order, not c - flip - c: a memo that
+/// answers a hit without storing gives the first caller's result to everyone, so the judged run
+/// must come second.) Only the run of `c` itself is judged, so a flipped case that falls outside
+/// the statement cannot raise an alarm; a replay re-executes the same sequence. Call at the top of `Prop::check`; returns true if it ran the case
+/// (the caller returns), false if the caller is already inside a round and runs its body.
+pub fn history_round<C: Serialize>(
+    c: &C,
+    obs: &mut Obs,
+    flip: impl Fn(&C) -> C,
+    check: impl Fn(&C, &mut Obs),
+) -> bool {
+    if IN_HISTORY.with(|h| h.get()) {
+        return false;
+    }
+    struct Reset;
+    impl Drop for Reset {
+        fn drop(&mut self) {
+            IN_HISTORY.with(|h| h.set(false));
+        }
+    }
+    IN_HISTORY.with(|h| h.set(true));
+    let _reset = Reset;
+    if hash64(&serde_json::to_string(c).unwrap_or_default()) % 3 == 0 {
+        obs.tag("history/flag-flipped-call-first");
+        let v = flip(c);
+        let mut throwaway = Obs::default();
+        let _ = catch(|| check(&v, &mut throwaway));
+    }
+    check(c, obs);
+    true
+}
+
 /// `P::generate` with the size multiplier of the `large` lanes: 10 (60%), 50 (30%) or 250 (10%) times
 /// the lengths of the ordinary generator, drawn from the case's own rng so that it replays.
 pub fn gen_case<P: Prop>(rng: &mut Rng, tier: Tier, lane: &str) -> P::Case {
